@@ -727,7 +727,11 @@ def oracle_batch(impl, wd: Path, items, tag):
 SITE = {"fix_starred_imports": "tracing.fix_starred_imports", "fix_reimported_names": "tracing.fix_reimported_names",
         "remove_unused_imports": "fixes.remove_unused_imports", "fix_duplicate_imports": "fixes.fix_duplicate_imports",
         "sort_imports": "fixes.sort_imports", "move_imports_to_toplevel": "fixes.move_imports_to_toplevel",
-        "add_missing_imports": "fixes.add_missing_imports", "format_code": "main.format_code"}
+        "add_missing_imports": "fixes.add_missing_imports", "format_code": "main.format_code",
+        "_fix_duplicate_from_imports": "fixes.fix_duplicate_imports",
+        "_fix_duplicate_regular_imports": "fixes.fix_duplicate_imports",
+        "_breakout_stacked_imports": "fixes.fix_duplicate_imports",
+        "_sort_import_statements": "fixes.sort_imports", "_fix_imported_as_self_or_unsorted": "fixes.sort_imports"}
 
 
 def _toplevel_binders(tree, src, n):
@@ -1119,7 +1123,11 @@ def check(run: common.Run):  # noqa: C901
     # ---- 5. a broken correspondence / proof: failing-input search with the oracle
     broken_proof = bool(ps.get("props")) and not ps["props"]["ok"]
     if (disagreements or broken_proof) and not unmatched:
-        found = failing_input_search(impl, wd, disagreements, rnd, kf)
+        try:
+            found = failing_input_search(impl, wd, disagreements, rnd, kf)
+        except Exception as e:  # noqa  -- the search must never hide the disagreement that triggered it
+            common.log("failing-input search crashed:", repr(e))
+            found = []
         for f in found[:3]:
             run.violation({"kind": "property-oracle", "found_by": "failing-input search", **slim(f),
                            "explanation": "found while searching from a broken correspondence/proof"}, True)
